@@ -278,24 +278,19 @@ Qed.
 
 (* ---------------- the snapshot is a parseable message equal to the original ---------------- *)
 
-Lemma snapshot_parseable o m :
-  wf_b m = true ->
-  m_trailers m = None ->
-  v_full (fst (snapshot o m)) = true ->
-  parse_spec (m_isreq m) (v_message (fst (snapshot o m))) = Some (canon m).
+(* the specification pair: the RFC-shaped reader inverts the RFC-shaped
+   writer on every well-formed message, with or without trailers *)
+Lemma parse_serialize m :
+  wf_b m = true -> parse_spec (m_isreq m) (serialize_spec m) = Some (canon m).
 Proof.
-  intros Hwf Htn0 Hfull.
-  destruct (snapshot_view_shape false o m) as (b & t & Hm & _ & _ & Hbt).
-  cbv zeta in *. fold snapshot in *. specialize (Hbt Hfull). destruct Hbt as [-> ->].
-  rewrite Hm. clear Hm Hfull.
+  intros Hwf.
   pose proof (all_wf m Hwf) as Hall.
   pose proof Hwf as Hwf'. unfold wf_b in Hwf'. rewrite !andb_true_iff in Hwf'.
   destruct Hwf' as [[[[[[[Hst Hh1] Hh2] Hhr] Hhd] Hfr] Htr] Hnb].
-  unfold parse_spec. rewrite head_bytes_shape. rewrite <- !app_assoc.
+  unfold parse_spec, serialize_spec. rewrite head_bytes_shape. rewrite <- !app_assoc.
   rewrite split_crlf_app by assumption.
   set (allh := special m ++ write_subset (m_isreq m) (m_hdrs m)) in *.
   rewrite parse_hdrs_hlines_all by assumption.
-  (* the fields read back from the header block *)
   assert (Hhost : (if m_isreq m then header_get kHost allh else []) = m_host m).
   { destruct (m_isreq m) eqn:Er.
     - unfold header_get, allh. rewrite <- Er at 1. rewrite lookup_all by (rewrite Er; apply excl_Host).
@@ -313,16 +308,15 @@ Proof.
   - (* chunked *)
     rewrite bytes_eqb_refl.
     apply Z.eqb_eq in Hfr.
-    assert (Henc : chunk_body (m_body m) ++ trailer_bytes m = chunk_enc (m_body m) []).
-    { unfold trailer_bytes, chunk_enc. rewrite Ete, Htn0. reflexivity. }
-    rewrite Henc. rewrite chunk_roundtrip by reflexivity.
-    rewrite Hfr, Htn0. cbn [negb andb canon_trailers]. reflexivity.
+    rewrite chunk_roundtrip.
+    + rewrite Hfr. cbn [negb andb]. f_equal. f_equal.
+      unfold trailer_list. destruct (m_trailers m) as [[|x l]|]; reflexivity.
+    + unfold trailer_list. destruct (m_trailers m) as [tl|]; [|reflexivity].
+      apply andb_true_iff in Htr. tauto.
   - (* not chunked *)
     assert (Htn : m_trailers m = None).
     { destruct (m_trailers m); [|reflexivity]. rewrite andb_true_iff in Htr. destruct Htr; discriminate. }
-    assert (Hr2 : m_body m ++ trailer_bytes m = m_body m).
-    { unfold trailer_bytes. rewrite Htn, Ete. now rewrite app_nil_r. }
-    rewrite Hr2, Htn. cbn [canon_trailers].
+    rewrite Htn. cbn [canon_trailers].
     unfold allh at 1. rewrite lookup_all by apply excl_CL. rewrite lookup_CL, Ete. cbn [negb andb].
     destruct (0 <=? m_cl m) eqn:Ecl.
     + apply Z.leb_le in Ecl. apply Z.eqb_eq in Hfr.
@@ -331,6 +325,30 @@ Proof.
       destruct (m_cl m) as [|p|p]; try reflexivity. lia.
     + apply andb_true_iff in Hfr. destruct Hfr as [Hc Hrq]. apply Z.eqb_eq in Hc.
       apply negb_true_iff in Hrq. rewrite Hrq, Hc. reflexivity.
+Qed.
+
+(* the implementation refines the specification writer exactly when the
+   Trailer map is nil (C15-K4 otherwise); repaired or not *)
+Lemma snapshot_refines_serialize legacy o m :
+  m_trailers m = None ->
+  v_full (fst (snapshot_gen legacy o m)) = true ->
+  v_message (fst (snapshot_gen legacy o m)) = serialize_spec m.
+Proof.
+  intros Htn Hfull.
+  destruct (snapshot_view_shape legacy o m) as (b & t & Hm & _ & _ & Hbt).
+  cbv zeta in *. specialize (Hbt Hfull). destruct Hbt as [-> ->].
+  rewrite Hm. unfold serialize_spec, trailer_bytes, trailer_list, chunk_enc. rewrite Htn.
+  destruct (m_te m); cbn [hlines map List.concat app]; [reflexivity | now rewrite app_nil_r].
+Qed.
+
+Lemma snapshot_parseable o m :
+  wf_b m = true ->
+  m_trailers m = None ->
+  v_full (fst (snapshot o m)) = true ->
+  parse_spec (m_isreq m) (v_message (fst (snapshot o m))) = Some (canon m).
+Proof.
+  intros Hwf Htn Hfull. unfold snapshot in *.
+  rewrite snapshot_refines_serialize by assumption. now apply parse_serialize.
 Qed.
 
 (* the snapshot starts with the message's start line, byte for byte *)
@@ -387,4 +405,110 @@ Proof.
   pose proof (sections_partition false (mkOpts ho []) m) as Hs. rewrite E in Hs. cbn [fst] in Hs.
   destruct Hs as (_ & _ & _ & h & b & t & Hh & Hb & Ht & Hcat).
   unfold reader. rewrite Hh, Hb, Ht, Hcat. reflexivity.
+Qed.
+
+(* ---------------- the view a logger builds; who reads the body ---------------- *)
+
+Lemma default_view_full m : v_full (fst (snapshot default_opts m)) = true.
+Proof. reflexivity. Qed.
+
+Lemma text_view_full ho m : v_full (fst (snapshot (mkOpts ho []) m)) = negb ho.
+Proof. unfold snapshot, snapshot_gen. cbn. destruct ho; reflexivity. Qed.
+
+Lemma reads_body_spec lg skip m :
+  reads_body lg skip m = match logger_view lg skip m with Some v => v_full v | None => false end.
+Proof.
+  unfold reads_body, logger_view. destruct lg as [o|c| |ho dec].
+  - reflexivity.
+  - destruct skip; cbn [negb andb]; [reflexivity|].
+    destruct (capture_on c m && (if m_isreq m then negb ((m_cl m <=? 0) && negb (m_te m)) else true))%bool;
+      [now rewrite default_view_full | reflexivity].
+  - reflexivity.
+  - destruct skip; cbn [negb andb]; [reflexivity | now rewrite text_view_full].
+Qed.
+
+(* every view a logger builds has sections that partition it *)
+Lemma logger_view_sections lg skip m v :
+  logger_view lg skip m = Some v -> view_sections_ok v.
+Proof.
+  unfold logger_view. destruct lg as [o|c| |ho dec].
+  - intros E. injection E as <-. exact (sections_partition false o m).
+  - destruct skip; [discriminate|].
+    destruct (capture_on c m && _)%bool; [|discriminate].
+    intros E. injection E as <-. exact (sections_partition false default_opts m).
+  - discriminate.
+  - destruct skip; [discriminate|]. intros E. injection E as <-.
+    exact (sections_partition false (mkOpts ho []) m).
+Qed.
+
+(* mv.Reader() never fails on a snapshot view, with or without Decode() *)
+Lemma reader_total legacy o m dec : reader dec (fst (snapshot_gen legacy o m)) <> None.
+Proof.
+  pose proof (sections_partition legacy o m) as (_ & _ & _ & h & b & t & Hh & Hb & Ht & _).
+  unfold reader. rewrite Hh, Hb, Ht. destruct dec; [|discriminate].
+  unfold body_decoded. destruct b as [|c b]; [discriminate|].
+  destruct (v_chunked (fst (snapshot_gen legacy o m))); [|discriminate].
+  pose proof (dechunk_never_out_of_fuel (c :: b)) as Hf.
+  destruct (dechunk (c :: b)) as [d st]. cbn [snd] in Hf. destruct st; try discriminate. congruence.
+Qed.
+
+(* ---------------- records ---------------- *)
+
+Lemma records_when_not_skipped lg m :
+  List.length (snd (run_logger lg false m)) = match lg with LSnap _ => 0%nat | _ => 1%nat end.
+Proof.
+  unfold run_logger, run_logger_gen. destruct lg as [o|c| |ho dec]; cbn [snd List.length].
+  - reflexivity.
+  - destruct (m_isreq m); [destruct ((m_cl m <=? 0) && negb (m_te m))%bool; [reflexivity|]|];
+      destruct (capture_on c m); reflexivity.
+  - reflexivity.
+  - destruct (snapshot_gen false (mkOpts ho []) m). reflexivity.
+Qed.
+
+(* ---------------- histories of exchanges ---------------- *)
+
+Lemma run_many_messages lg xs :
+  fst (run_many lg xs) = map (fun x => fst (run_logger lg (fst x) (snd x))) xs.
+Proof.
+  induction xs as [|[skip m] xs IH]; [reflexivity|].
+  cbn [run_many map fst snd]. destruct (run_logger lg skip m) as [m' r].
+  destruct (run_many lg xs) as [ms rs]. cbn [fst] in *. now rewrite IH.
+Qed.
+
+Lemma run_many_records lg xs :
+  snd (run_many lg xs) = flat_map (fun x => snd (run_logger lg (fst x) (snd x))) xs.
+Proof.
+  induction xs as [|[skip m] xs IH]; [reflexivity|].
+  cbn [run_many flat_map fst snd]. destruct (run_logger lg skip m) as [m' r].
+  destruct (run_many lg xs) as [ms rs]. cbn [snd] in *. now rewrite IH.
+Qed.
+
+(* every message of a history is left as it was, whatever else is in the history *)
+Lemma run_many_unchanged lg xs :
+  Forall (fun x => lg = LMarbl -> fst x = false -> m_nobody (snd x) = false) xs ->
+  fst (run_many lg xs) = map snd xs.
+Proof.
+  intros H. rewrite run_many_messages. apply map_ext_in.
+  intros [skip m] Hin. cbn [fst snd]. rewrite Forall_forall in H. specialize (H _ Hin). cbn [fst snd] in H.
+  now apply forwarded_unchanged.
+Qed.
+
+(* the log of a history is the log of its unskipped exchanges *)
+Lemma run_many_skip_invisible lg xs :
+  snd (run_many lg xs) = snd (run_many lg (filter (fun x => negb (fst x)) xs)).
+Proof.
+  rewrite !run_many_records. induction xs as [|[skip m] xs IH]; [reflexivity|].
+  cbn [flat_map filter fst snd]. destruct skip; cbn [negb].
+  - rewrite skip_means_unrecorded. cbn [app]. exact IH.
+  - cbn [flat_map fst snd]. now rewrite IH.
+Qed.
+
+(* the result for one exchange does not depend on the exchanges around it *)
+Lemma run_many_independent lg pre x post :
+  nth_error (fst (run_many lg (pre ++ x :: post))) (List.length pre)
+  = Some (fst (run_logger lg (fst x) (snd x))).
+Proof.
+  rewrite run_many_messages, map_app. cbn [map].
+  rewrite nth_error_app2 by (rewrite map_length; lia).
+  rewrite map_length, Nat.sub_diag. reflexivity.
 Qed.
